@@ -203,7 +203,7 @@ func (c *Ctx) isRepoPkg(path string) bool {
 func (c *Ctx) allowExternalInline(fn *ssa.Function) bool {
 	// small, well-understood standard-library code is executed from its own source (go/ssa of the
 	// installed toolchain) rather than modelled: bytes.Buffer accessors, unicode/utf8 helpers
-	for _, p := range []string{"(*bytes.Buffer).", "bytes.", "unicode/utf8.", "(*strings.Builder)."} {
+	for _, p := range []string{"(*bytes.Buffer).", "bytes.", "unicode/utf8.", "(*strings.Builder).", "io.WriteString"} {
 		if strings.HasPrefix(fn.String(), p) {
 			c.Assumed["standard-library function executed from source: "+fn.String()] = true
 			return true
